@@ -65,7 +65,7 @@ def gen_world(seed, tier):
             ops.append({"op": "bin_prod", "b": b, "c": c, "p": p, "lb": 0, "ub": ub})
             rel.append({"kind": "prod", "a": b, "c": c, "p": p})
         elif kind == "int_prod":
-            ub = rng.choice([0, 1, 2, 3, 5, 6, 7, 9, 4.5])
+            ub = rng.choice([0, 1, 2, 3, 5, 6, 7, 9, 4.5, 3.5, 1.5, 0.5])
             bits = math.ceil(math.log2(ub + 1))
             imax = min(2 ** bits - 1, 5)
             iub = rng.randint(0, imax) if imax > 0 else 0
@@ -162,6 +162,15 @@ def gen_world(seed, tier):
     if rng.random() < 0.3:
         # a wrapper with a finite limit and the extra signal timeout: optimize() then takes the _run_with_timeout route
         wopts = {"time_limit": rng.choice([100, 3600]), "use_also_custom_timeout": rng.random() < 0.7}
+    r3 = random.Random(H(seed, "c12opts"))
+    if r3.random() < 0.3:
+        wopts["optimization_sense"] = r3.choice(["maximize", "minimize", "maximize"])      # documented constructor option
+    if r3.random() < 0.25:
+        # a rejected objective (an inequality is not an objective) somewhere before a valid one: it must leave no trace
+        obj_pos = [i for i, o in enumerate(ops) if o["op"] == "objective"]
+        if obj_pos:
+            at = r3.choice(obj_pos)
+            ops.insert(at, {"op": "bad_objective", "terms": ops[at]["terms"], "sense": r3.choice(["maximize", "minimize", "max"])})
     faults = []
     if wopts.get("use_also_custom_timeout"):
         # the documented wrapper attributes are part of its state: let the extra signal timeout fire during one
@@ -318,6 +327,13 @@ def execute(spec):
                     for v, c in op["terms"]:
                         t[v] = t.get(v, 0) + c
                     obj = {"terms": t, "const": float(op.get("const", 0)), "sense": "min" if op["sense"] in ("minimize", "min") else "max"}
+                elif k == "bad_objective":
+                    e = wr.quicksum(hv[v] * c for v, c in op["terms"])
+                    try:
+                        wr.set_objective(e <= 1, sense=op["sense"])
+                        V("inequality_accepted_as_objective", {}, i)
+                    except Exception:
+                        pass            # rejected, as documented; the model's objective and direction are those of before
                 elif k == "set_attr":
                     setattr(wr, op["attr"], float("inf") if op["value"] == "inf" else op["value"])
                 elif k == "queue_fix":
@@ -443,7 +459,7 @@ def sample_view(spec, outcome):
 def shrink(spec):
     ops = spec["world"]["ops"]
     for i in range(len(ops) - 1, -1, -1):
-        if ops[i]["op"] in ("lin", "queue_fix", "queue_lb", "fix", "objective", "get_values", "optimize", "set_attr"):
+        if ops[i]["op"] in ("lin", "queue_fix", "queue_lb", "fix", "objective", "get_values", "optimize", "set_attr", "bad_objective"):
             c = copy.deepcopy(spec)
             if ops[i]["op"] == "optimize":
                 # faults are addressed by solver-invocation index = number of earlier optimize() calls
